@@ -317,6 +317,9 @@ func execC08(seg []Ev) []Ev {
 			if f, ok := hm[lname]; ok && isNum {
 				if rounding[lname] {
 					e["hostmath"] = inType(f(x))
+					if lname == "round" {
+						e["hostmath2"] = inType(math.RoundToEven(x)) // (an exact half goes away from zero or to the even neighbour)
+					}
 				} else {
 					e["hostmath"] = valJSON(variants.VariantFromDouble(f(x)))["s"]
 				}
